@@ -218,13 +218,13 @@ pub fn run_c05(ctx: &Ctx, run: u64) -> RunReport {
 
 /// Adds the findings only this property's oracle can make.  Returns a property-specific count
 /// (C14: clock tuples checked).
-pub fn judge_a(ctx: &Ctx, _sc: &ScenarioA, out: &mut OutcomeA, agg: &mut Agg) -> u64 {
+pub fn judge_a(ctx: &Ctx, sc: &ScenarioA, out: &mut OutcomeA, agg: &mut Agg) -> u64 {
     match ctx.property.as_str() {
         "C13" => {
             judge_c13(out);
             0
         }
-        "C14" => judge_c14(out, agg),
+        "C14" => judge_c14(sc, out, agg),
         "C09" => {
             judge_c09_a(out);
             0
@@ -289,7 +289,7 @@ fn judge_c13(out: &mut OutcomeA) {
     }
 }
 
-fn judge_c14(out: &mut OutcomeA, agg: &mut Agg) -> u64 {
+fn judge_c14(sc: &ScenarioA, out: &mut OutcomeA, agg: &mut Agg) -> u64 {
     let mut tuples = 0u64;
     let mut flag_checked = 0u64;
     let mut assumption_void = 0u64;
@@ -331,8 +331,22 @@ fn judge_c14(out: &mut OutcomeA, agg: &mut Agg) -> u64 {
                 if r_ms >= 200 && !g.stopped_by_gui {
                     if let Some(ans) = g.answered_ns {
                         let used = ans.saturating_sub(rec.epoch_ns) as u128;
-                        // the promise is made under the stated environment assumption only
-                        if (rec.max_poll_gap_ns as u128) * 4 <= r_ns {
+                        // the promise is made under the stated environment assumption only: the latency
+                        // the *environment* adds per poll (polling interval at this node rate, injected
+                        // stalls and jumps, time passing on clock reads) is at most R/4.  Delays the
+                        // engine causes itself (e.g. clearing a table inside the timed window) count
+                        // against the engine.
+                        let interval = sc.knobs.poll_interval.unwrap_or(10_000) as u128;
+                        let mut env_ns: u128 = interval * sc.knobs.tau_ps as u128 / 1000 + 4 * sc.knobs.clock_read_step_ns as u128;
+                        for e in &sc.clock_events {
+                            if e.search == g.ordinal {
+                                env_ns += match e.fault {
+                                    ClockFaultS::Stall { ns } | ClockFaultS::Jump { ns } => ns as u128,
+                                    ClockFaultS::Freeze { .. } => 0,
+                                };
+                            }
+                        }
+                        if env_ns * 4 <= r_ns {
                             flag_checked += 1;
                             if used >= r_ns {
                                 out.found.push(Found {
@@ -1292,6 +1306,12 @@ pub fn gen_c14(ctx: &Ctx, run: u64) -> ScenarioA {
             let (fen, moves) = gen_position(&mut rng, false);
             let white = side_to_move_is_white(&fen, &moves);
             script.push(Intent::Position { fen, moves });
+            // sometimes the GUI changes the table size right after the previous bestmove (the
+            // scheduler decides whether the finished search thread has released the tables yet);
+            // whatever the engine does with it must not come out of the next search's clock
+            if n_search > 0 && rng.chance(1, 6) {
+                script.push(Intent::SetOption { name: "Hash".into(), value: rng.pick(&["64", "256", "512", "1024"]).to_string() });
+            }
             // keep the worst case (search runs to the hard limit) below ~600 k nodes
             let max_r = (1_200_000u128 * knobs.tau_ps as u128 / 1_000_000_000).max(200) as u64;
             let r = rng.range(200, max_r.max(201));
@@ -1330,8 +1350,10 @@ pub fn gen_c14(ctx: &Ctx, run: u64) -> ScenarioA {
         let per_poll = (interval as u128 * knobs.tau_ps as u128 / 1000) as u64;
         let max_stall = budget_ns.saturating_sub(per_poll);
         if max_stall > 10_000 && rng.chance(2, 3) {
-            for _ in 0..rng.range(1, 4) {
-                let fault = if rng.chance(1, 2) { ClockFaultS::Stall { ns: rng.range(1_000, max_stall) } } else { ClockFaultS::Jump { ns: rng.range(1_000, max_stall) } };
+            let n_faults = rng.range(1, 4);
+            for _ in 0..n_faults {
+                let share = (max_stall / n_faults).max(1_001);
+                let fault = if rng.chance(1, 2) { ClockFaultS::Stall { ns: rng.range(1_000, share) } } else { ClockFaultS::Jump { ns: rng.range(1_000, share) } };
                 clock_events.push(ClockEventS { search: rng.below(n_search) as usize, poll: rng.range(1, 30), fault });
             }
         }
